@@ -79,13 +79,15 @@ PROPS = {
         ],
     },
     "C09": {
-        "level": "proof", "prove": True, "ground": ["foldUnique", "noOperatorPrefix", "tableShape"],
+        "level": "proof", "prove": True, "ground": ["foldUnique", "noOperatorPrefix", "tableShape", "deprecatedSuffixFree"],
         "bounded": {"search": "C09", "quick": "10s", "thorough": "60s",
-                    "what": "every listed license and exception id in upper, lower and mixed case: same validity, same ExtractLicenses output (list casing), mutual satisfaction with the canonical spelling (exhaustive over the shipped tables; BOUNDED)"},
+                    "what": "every listed license and exception id in upper, lower and mixed case: same validity, same ExtractLicenses output (list casing), mutual satisfaction with the canonical spelling (exhaustive over the shipped tables; BOUNDED cross-check)"},
         "assumptions": [
-            "proved: inLicenseList finds an entry iff some entry equals the id up to letter case and returns the first such ENTRY (the list's spelling); EqualFold uninterpreted (reflexive)",
-            "ground: no two listed ids are equal up to case, none starts with an operator keyword",
-            "stated, not mechanised: the scanner uses a lexeme only through these lookups, its length and case-sensitive suffix tests (which the property excludes), so the token depends only on the fold class of the lexeme",
+            "proved (code): inLicenseList finds an entry iff some entry equals the id up to letter case and returns the first such ENTRY (the list's spelling); the scanner's token for an id lexeme is (nRole, nVal)(lexeme, next-is-'+') with nVal an entry of the lists (C05 lexical level, C08 normalisation)",
+            "proved (lemmas, pure SMT): foldClassListed - a lexeme fold-equal to one that denotes an active or exception id gets the same classification, role and token value; foldClassDeprecated - likewise for ids that are only on the deprecated list, given that no case variant of such an id looks like '<listed id>-only / -or-later' (ground: deprecatedSuffixFree)",
+            "ground: no two listed ids are equal up to case (foldUnique), none starts with an operator keyword (noOperatorPrefix: the operator-first rule of the lexer never splits a re-cased id)",
+            "assumed about strings.EqualFold: an equivalence relation, only \"\" folds to \"\", compatible with appending '-or-later'",
+            "composition (stated): the token sequence, hence the tree, hence validity, the verdict (C07: semL of the trees) and the extracted strings (C06: reconT of the leaves, with the list's spelling as id) are the same for re-cased listed ids",
         ],
     },
     "C10": {
